@@ -106,6 +106,29 @@ theorem C14_alloc_bound {st : Region} {abs : Nat → Option ByteArray} (inv : In
   · exact Or.inr h
   · left; unfold writeRun; rw [if_neg h]; exact inv.findSpace_bound hk _ (by omega)
 
+/-- `C14_inplace_keeps_tables`: an overwrite that keeps the sector count is done in place — the only physical writes
+    are the length word and the data inside the chunk's own run; neither header sector is written and the in-memory
+    `offsets`, `Timestamps`, occupancy are left untouched (so memory and file keep agreeing on the timestamp, which is
+    the `hdrT` clause of `Inv` that `C14_write_inv` re-establishes and `C14_reload` reads back). -/
+theorem C14_inplace_keeps_tables (st : Region) {x z : Int} {k : Nat} (hk : idx? x z = some k) (data : ByteArray)
+    (now : BitVec 32) (hn : needOf data.size < 256)
+    (h : (sectorLoc (st.offsets.get k)).1 ≠ 0 ∧ (sectorLoc (st.offsets.get k)).2 = needOf data.size) :
+    (writeSector st x z data now).2.1.timestamps = st.timestamps ∧
+      (writeSector st x z data now).2.1.offsets = st.offsets ∧
+      (writeSector st x z data now).2.1.occ = st.occ ∧
+      (writeSector st x z data now).2.2 =
+        [(4096 * (sectorLoc (st.offsets.get k)).1, be32bytes (BitVec.ofNat 32 data.size)),
+         (4096 * (sectorLoc (st.offsets.get k)).1 + 4, data)] := by
+  rw [writeSector_same st hk data now hn h]
+  exact ⟨rfl, rfl, rfl, rfl⟩
+
+/-- `C14_aged_file`: if the timestamp table of the file is rewritten behind the Region's back (an older file: one day
+    subtracted from every non-zero entry) and the file is re-opened, `Load` succeeds and the invariant holds again —
+    in particular the in-memory timestamps equal the (aged) ones in the file, and every chunk is still stored. -/
+theorem C14_aged_file {st : Region} {abs : Nat → Option ByteArray} (inv : Inv st abs) :
+    ∃ st', load (ageFile st.file) = .ok st' ∧ Inv st' abs :=
+  inv.age
+
 /-- writes over the 255-sector limit are refused without changing anything (no state change, no physical write) -/
 theorem C14_write_refused (st : Region) {x z : Int} {k : Nat} (hk : idx? x z = some k) (data : ByteArray)
     (now : BitVec 32) (hn : 256 ≤ needOf data.size) : writeSector st x z data now = (.err, st, []) :=
